@@ -48,9 +48,9 @@ def pyTitle (s : Str) : Str :=
     | [], _ => []
     | c :: t, prevCased =>
       let cased := c.toNat < 256 && tbl Gen.Http.titleCased c.toNat
-      let c' := if prevCased then lowerChar c
-                else if c.toNat < 256 then Char.ofNat (Gen.Http.titleTbl.getD c.toNat c.toNat) else c
-      c' :: go t cased
+      let c' := if prevCased then [lowerChar c]
+                else if c.toNat < 256 then (Gen.Http.titleTbl.getD c.toNat [c.toNat]).map Char.ofNat else [c]
+      c' ++ go t cased
   go s false
 
 def lstrip (s : Str) : Str := s.dropWhile Py.isSpace
